@@ -275,6 +275,20 @@ fn main() {
             }
         }
     }
+    // C05: compact and pretty output of the real serializer against serde_json's on the same data model
+    if want("C05") {
+        for d in &docs {
+            let Ok(txt) = std::str::from_utf8(d) else { continue };
+            let Ok(sv) = serde_json::from_str::<serde_json::Value>(txt) else { continue };
+            // float text is ryu's on both sides but exponent style differs (1e19 / 1e+19): both are valid JSON, skip
+            fn has_float(v: &serde_json::Value) -> bool { match v { serde_json::Value::Number(n) => n.is_f64(), serde_json::Value::Array(a) => a.iter().any(has_float), serde_json::Value::Object(o) => o.values().any(has_float), _ => false } }
+            if has_float(&sv) { continue; }
+            let r = catch_unwind(AssertUnwindSafe(|| (sonic_rs::to_string(&sv), sonic_rs::to_string_pretty(&sv))));
+            let Ok((c, p)) = r else { report("C05", format!("serializing the value of {} panics", show(d))) };
+            match (c, serde_json::to_string(&sv)) { (Ok(a), Ok(b)) if a != b => report("C05", format!("to_string of the value of {} gives {:?}, reference {:?}", show(d), a, b)), (Err(e), Ok(_)) => report("C05", format!("to_string of the value of {} fails: {e}", show(d))), _ => {} }
+            match (p, serde_json::to_string_pretty(&sv)) { (Ok(a), Ok(b)) if a != b => report("C05", format!("to_string_pretty of the value of {} gives {:?}, reference {:?}", show(d), a, b)), (Err(e), Ok(_)) => report("C05", format!("to_string_pretty of the value of {} fails: {e}", show(d))), _ => {} }
+        }
+    }
     // C07: numbers against std
     if want("C07") {
         for n in &nums {
